@@ -22,7 +22,7 @@ from concurrent.futures import ThreadPoolExecutor
 from pathlib import Path
 
 ROOT = Path(__file__).resolve().parent.parent
-SEEDED = ROOT / "seeded"
+SEEDED = Path(os.environ.get("SEEDED_DIR", ROOT / "seeded"))
 
 
 def sh(cmd, **kw):
